@@ -343,8 +343,11 @@ def run_randomised(X, rank, k, seed, opts):
     from tensorly.decomposition import randomised_parafac
     rec = Rec()
 
+    stop_at = opts.get("_stop_at")
+
     def cb(dec, err=None):
         rec.cb.append((_cp_it(dec), None if err is None else float(err)))
+        return stop_at is not None and len(rec.cb) - 2 == stop_at     # call 0 is the one before the loop
 
     out, errs = randomised_parafac(np.array(X), rank, n_samples=opts.get("n_samples", 40), n_iter_max=k, tol=opts.get("_tol", 0),
                                    max_stagnation=1000, return_errors=True, random_state=seed,
@@ -462,6 +465,7 @@ def configs(tier):
         ("tr_als_ne", "tensorly.decomposition.tensor_ring_als", run_tr_als, dict(ls_solve="normal_eq"), G, [3], K[-1:]),
         ("randomised", "tensorly.decomposition.randomised_parafac", run_randomised, dict(), G, [3, 4], K),
         ("randomised_noisy", "tensorly.decomposition.randomised_parafac", run_randomised, dict(n_samples=6), G, [3], K + ([4, 5] if q else [])),
+        ("randomised_cb_stop", "tensorly.decomposition.randomised_parafac", run_randomised, dict(_cb=True, _stop_at=2), G, [3], [6]),
         ("randomised_cb", "tensorly.decomposition.randomised_parafac", run_randomised, dict(_cb=True), G, [3], K[-1:]),
         ("randomised_tol", "tensorly.decomposition.randomised_parafac", run_randomised, dict(_tol=1e-2), G, [3], KT),
         ("cmtf", "tensorly.decomposition._cmtf_als.coupled_matrix_tensor_3d_factorization", run_cmtf, dict(init="svd"), G, [3], K),
@@ -749,6 +753,112 @@ def trace_cases(col, tier, rng):
         chk.hist("kind", "trace")
 
 
+# ----------------------------------------------------------------------------- event-level traces (parafac, MU, HALS)
+class EventLog:
+    """logs, in order, the MTTKRP calls (10 + mode), cp_normalize (1), error computations (2 = with an MTTKRP / inline shortcut,
+    3 = explicit) and callbacks (4) of one run by temporarily rebinding the names the loop looks up in its own module
+    (harness-side interposition; /repo is untouched)"""
+    def __init__(self, module, inline_norm=False):
+        self.module, self.inline_norm, self.events, self.saved = module, inline_norm, [], {}
+
+    def __enter__(self):
+        try:
+            return self._enter()
+        except Exception:
+            self.__exit__()
+            raise
+
+    def _enter(self):
+        m, ev = self.module, self.events
+        def wrap(name, make):
+            orig = getattr(m, name)
+            self.saved[name] = orig
+            setattr(m, name, make(orig))
+        wrap("unfolding_dot_khatri_rao", lambda f: (lambda tensor, cp, mode: (ev.append(10 + mode), f(tensor, cp, mode))[1]))
+        wrap("cp_normalize", lambda f: (lambda *a, **k: (ev.append(1), f(*a, **k))[1]))
+        if self.inline_norm:
+            wrap("cp_norm", lambda f: (lambda *a, **k: (ev.append(2), f(*a, **k))[1]))
+        else:
+            def mk(f):
+                def error_calc(tensor, norm_tensor, weights, factors, sparsity, mask, mttkrp=None):
+                    ev.append(2 if (mttkrp is not None and mask is None and not sparsity) else 3)
+                    return f(tensor, norm_tensor, weights, factors, sparsity, mask, mttkrp)
+                return error_calc
+            wrap("error_calc", mk)
+        return self
+
+    def __exit__(self, *exc):
+        for name, f in self.saved.items():
+            setattr(self.module, name, f)
+        return False
+
+    def observed(self):
+        ev = list(self.events)
+        while ev and ev[0] == 1:      # normalisation inside the initialisation
+            ev.pop(0)
+        return ev
+
+
+def event_cases(col, tier, rng):
+    """the implementation's event sequence against the observable projection of the skeleton's trace (Model/Errors.v:obs_of_trace)"""
+    from tensorly.decomposition import parafac, non_negative_parafac, non_negative_parafac_hals
+    from tensorly.decomposition import _cp as cp_mod, _nn_cp as nn_mod
+    chk = col.chk
+    rs = np.random.RandomState(rng.randrange(2 ** 31))
+    X = rs.standard_normal((3, 4, 3)); Xn = np.abs(X) + 0.1
+    q = tier == "quick"
+
+    def emit(entry, modes, nrm, nis, ls, cbk, n, stop_at, decs, observed, extra):
+        lit = (f"(KEvents {C.nat_list(modes)} {C.boolc(nrm)} {C.boolc(nis)} {C.boolc(ls)} {C.boolc(cbk)} {C.nat(n)} {optnat(stop_at)} "
+               f"{'[' + '; '.join(C.boolc(d) for d in decs) + ']' if decs else '(@nil bool)'} {C.nat_list(observed)})")
+        col.add(lambda P, lit=lit: lit, dict(inputs=dict(extra, modes=modes, normalize_factors=nrm, linesearch=ls, callback=cbk, n_iter_max=n, stop_at=stop_at,
+                                                         linesearch_decisions=decs, observed_events=observed),
+                                             what="event-level trace (10+m = MTTKRP of mode m, 1 = cp_normalize, 2 = shortcut error, 3 = explicit error, 4 = callback)", entry=entry))
+        chk.count(key=("events", entry.split(".")[-1], tuple(modes), nrm, ls, cbk, n, stop_at), nontrivial=n > 0)
+        chk.hist("kind", "events")
+
+    # parafac
+    for nrm in (False, True):
+        for ls in (False, True):
+            for cbk in (False, True):
+                for n in ((0, 2, 9) if q else (0, 1, 2, 7, 9, 13)):
+                    for stop_at in [None] + ([1] if cbk and n > 1 else []) + ([6] if cbk and n > 6 and not q else []):
+                        for fixed in ([], [1]):
+                            if q and fixed and (cbk != ls):
+                                continue
+                            modes = [m for m in range(3) if m not in fixed]
+                            ncb = [0]
+                            log = EventLog(cp_mod)
+
+                            def cb(dec, err=None):
+                                log.events.append(4); ncb[0] += 1
+                                return stop_at is not None and ncb[0] - 2 == stop_at
+                            init = rand_cp_init(X.shape, 2, np.random.RandomState(5))
+                            buf = io.StringIO()
+                            with log, contextlib.redirect_stdout(buf):
+                                st, out = C.call_impl(parafac, np.array(X), 2, n_iter_max=n, tol=0, return_errors=True, init=init, normalize_factors=nrm,
+                                                      linesearch=ls, fixed_modes=list(fixed), callback=cb if cbk else None, verbose=1 if ls else 0)
+                            if st != "ok":
+                                chk.hist("skipped", f"events parafac: {str(out)[:50]}"); continue
+                            emit("tensorly.decomposition.parafac", modes, nrm, False, ls, cbk, n, stop_at, ls_decisions(buf.getvalue()), log.observed(),
+                                 {"fixed_modes": fixed})
+    # multiplicative updates and HALS (normalisation inside the sweep, after every updated mode but the last updated one)
+    for fn, entry, inline in ((non_negative_parafac, "tensorly.decomposition.non_negative_parafac", False),
+                              (non_negative_parafac_hals, "tensorly.decomposition.non_negative_parafac_hals", True)):
+        for nrm in (False, True):
+            for fixed in ([], [0]) + (([2],) if inline else ()):
+                for n in ((1, 3) if q else (0, 1, 2, 3, 5)):
+                    modes = [m for m in range(3) if m not in fixed]
+                    log = EventLog(nn_mod, inline_norm=inline)
+                    init = rand_cp_init(Xn.shape, 2, np.random.RandomState(6), nonneg=True)
+                    with log:
+                        st, out = C.call_impl(fn, np.array(Xn), 2, n_iter_max=n, tol=1e-300, return_errors=True, init=init, normalize_factors=nrm,
+                                              fixed_modes=list(fixed))
+                    if st != "ok":
+                        chk.hist("skipped", f"events {entry.split('.')[-1]}: {str(out)[:50]}"); continue
+                    emit(entry, modes, nrm, True, False, False, n, None, [], log.observed(), {"fixed_modes": fixed})
+
+
 # ----------------------------------------------------------------------------- direct calls of _parafac2_reconstruction_error
 def parafac2_error_cases(col, tier, rng):
     """random decompositions (orthonormal projections - the function validates that -, slices of different heights, with / without
@@ -877,7 +987,7 @@ def prefix_consistency(chk, name, entry, X, kind, rank, seed, o, recs):
 
 
 # ----------------------------------------------------------------------------- known findings
-# None at present: the four classes found in round 2 (parafac2 rejected line-search jump, masked HOOI, CMTF convergence exit,
+# None at present: randomised_parafac stopped by its callback (round 3) and the four classes found in round 2 (parafac2 rejected line-search jump, masked HOOI, CMTF convergence exit,
 # parafac pre-loop callback under mask+sparsity) are repaired in /repo (known_findings.d/C06.json, "fixed") and are regressions now.
 CLASSIFIERS = {}
 
@@ -964,6 +1074,11 @@ def run(chk):
     error_calc_cases(col, chk.tier, rng)
     parafac2_error_cases(col, chk.tier, rng)
     trace_cases(col, chk.tier, rng)
+    try:
+        event_cases(col, chk.tier, rng)
+    except AttributeError as ex:     # a renamed helper cannot be interposed any more: the event cases are skipped, never a verdict
+        skipped += 1
+        chk.hist("skipped", f"event traces: {ex}"[:80])
     # quick: one wave of at most 16 shards
     shard = max(30, min(64, -(-len(col.cases) // 16))) if chk.tier == "quick" else 120
     failing, n_eval, broken = C.run_case_shards("C06", HEADER, "case", col.cases, shard=shard)
